@@ -450,22 +450,23 @@ func clsOf(res string) string {
 	return f[0]
 }
 
-// class of a decode history: the sequence of outcome kinds, run-length compressed
+// class of a decode history: number of messages, then the first outcome that is not a message
 func decodeClass(res string) string {
-	var ks []string
+	n := 0
 	for _, o := range strings.Fields(res) {
 		p := strings.Split(o, ":")
+		if p[0] == "msg" {
+			n++
+			continue
+		}
 		k := p[0]
 		if k == "err" && len(p) > 1 {
 			k = p[1]
 		}
-		if n := len(ks); n > 0 && strings.HasPrefix(ks[n-1], k) {
-			if !strings.HasSuffix(ks[n-1], "*") {
-				ks[n-1] += "*"
-			}
-			continue
+		if n > 3 {
+			n = 3
 		}
-		ks = append(ks, k)
+		return fmt.Sprintf("msgs%d>%s", n, k)
 	}
-	return strings.Join(ks, ">")
+	return "msgs-only"
 }
